@@ -339,6 +339,41 @@ def do_call(spec):
                        radius=seed % 4)
             result = [tree_canon(rt[n]) for n in st["nets"]]
             raws.append(rt)
+        elif fn == "route_big":
+            # nets with tens of sinks on a machine of 64-144 chips, search radius 1-3: the router's tree grows
+            # past the size at which it switches from scanning its nodes to the hexagon spiral search
+            from rig.place_and_route import Machine, Cores
+            from rig.netlist import Net
+            from rig.links import Links
+            r = random.Random(seed + 31)
+            w, h = r.choice([(8, 8), (10, 10), (12, 12), (12, 9)])
+            dead_links = set()
+            if vary is not None and vary % 3 == 0:
+                for x in range(w):
+                    dead_links |= {(x, h - 1, Links.north), (x, 0, Links.south), (x, h - 1, Links.north_east), (x, 0, Links.south_west)}
+                for y in range(h):
+                    dead_links |= {(w - 1, y, Links.east), (0, y, Links.west), (w - 1, y, Links.north_east), (0, y, Links.south_west)}
+            m = Machine(w, h, chip_resources={Cores: 18}, dead_links=dead_links)
+            chips = [(x, y) for x in range(w) for y in range(h)]
+            n = r.randrange(25, 60)
+            where = {v: r.choice(chips) for v in range(n)}
+            vr = {v: {Cores: 1} for v in range(n)}
+            placements = dict(where)
+            used = {}
+            allocations = {}
+            for v in range(n):
+                c = used.get(where[v], 1)
+                if c >= 18:
+                    placements[v] = where[v] = next(ch for ch in chips if used.get(ch, 1) < 18)
+                    c = used.get(where[v], 1)
+                used[where[v]] = c + 1
+                allocations[v] = {Cores: slice(c, c + 1)}
+            nets = [Net(0, list(range(1, n)), 1.0), Net(n - 1, r.sample(range(n), n // 2), 2.0)]
+            args = [m, vr, nets, placements, allocations]
+            before = [snap(a) for a in args]
+            rt = route(vr, nets, m, [], placements, allocations, radius=(seed + (vary or 0)) % 3 + 1)
+            result = [tree_canon(rt[n_]) for n_ in nets]
+            raws.append(rt)
         elif fn == "tables":
             st = staged("routed")
             keys = {net: (i << 8, 0xffffff00) for i, net in enumerate(st["nets"])}
@@ -548,7 +583,7 @@ def do_call(spec):
 
 
 FNS = ["wrapper", "wrapper", "pr_wrapper", "place_sa_pinned", "place_sa_pinned", "place_sa_pinned", "place_sequential", "place_seqcustom", "place_seqcustom", "place_hilbert", "place_rcm", "place_breadth_first", "place_rand", "place_sa",
-       "allocate", "route", "route", "tables", "minimise_tables", "minimise_oc", "minimise_rdr", "oc_aliases", "oc_aliases", "oc_default", "oc_default", "bitfield", "bitfield_tagsets", "controller", "boot", "hexagons", "hexagons"]
+       "allocate", "route", "route", "route_big", "route_big", "tables", "minimise_tables", "minimise_oc", "minimise_rdr", "oc_aliases", "oc_aliases", "oc_default", "oc_default", "bitfield", "bitfield_tagsets", "controller", "boot", "hexagons", "hexagons"]
 
 
 if __name__ == "__main__":
